@@ -347,6 +347,53 @@ def _hex_chunk(ts):
     return [impl_hex(t) for t in ts]
 
 
+def during_load_fail():
+    """from_bytes decides the same while the library is in the middle of something else: called from the read() of the file
+    object a MidiFile is being loaded from (a device callback decoding its input while the main program loads a file sees the
+    library in exactly that state), and after loads that failed."""
+    import io
+    import mido
+    probes = [[0x90, 200, 1], [0xF0, 1, 0x80, 0xF7], [0x90, 1.5, 1], [0x90, 1], [0x90, 1, 2], [0xF0, 1, 2, 0xF7], [0xE0, 128, 0], [0xF4],
+              [0x90, 1, 2, 3], ['x'], [0xC0, -1]]
+
+    def outcomes():
+        out = []
+        for p in probes:
+            try:
+                out.append(('ok', list(mido.Message.from_bytes(p).bytes())))
+            except Exception as e:      # noqa: BLE001
+                out.append(('err', type(e).__name__))
+        return out
+    want = outcomes()
+    seen = []
+
+    class F(io.BytesIO):
+        def read(self, n=-1):
+            got = outcomes()
+            if got != want and not seen:
+                seen.append(got)
+            return super().read(n)
+    buf = io.BytesIO()
+    mido.MidiFile(tracks=[mido.MidiTrack([mido.Message('note_on', note=1, time=3), mido.MetaMessage('text', text='a'),
+                                          mido.Message('sysex', data=(1, 2), time=1)])]).save(file=buf)
+    data = buf.getvalue()
+    for kw in ({}, {'clip': True}, {'charset': 'utf-8'}, {'debug': False}):
+        for blob in (data, data[:-3], data[:30]):
+            try:
+                mido.MidiFile(file=F(blob), **kw)
+            except Exception:      # noqa: BLE001 - a truncated file: only the decisions are judged
+                pass
+            if seen:
+                bad = next((p, w, g) for p, w, g in zip(probes, want, seen[0]) if w != g)
+                return (f'while a MidiFile({", ".join("%s=%r" % i for i in kw.items())}) is being loaded, from_bytes({bad[0]!r}) gives '
+                        f'{bad[2]}; at any other time it gives {bad[1]}')
+            got = outcomes()
+            if got != want:
+                bad = next((p, w, g) for p, w, g in zip(probes, want, got) if w != g)
+                return f'after loading a file ({len(blob)} of {len(data)} bytes), from_bytes({bad[0]!r}) gives {bad[2]}; before it gave {bad[1]}'
+    return None
+
+
 def run(ck):
     ck.prepare_lean()
     ck.run_corpus(oracle)
@@ -375,6 +422,11 @@ def run(ck):
     ck.count('containers', len(container_cases()))
     if f:
         ck.oracle_fail({'containers': True}, f)
+    f = during_load_fail()
+    ck.evaluations += 1
+    ck.count('during_load')
+    if f:
+        ck.oracle_fail({'during_load': True}, f)
     # from_hex
     texts = gen_hex(ck)
     hres = [r for part in pool_map(_hex_chunk, list(chunks(texts, 2000))) for r in part]
@@ -409,6 +461,8 @@ def run(ck):
 def oracle(case):
     if 'containers' in case:
         return container_fail()
+    if 'during_load' in case:
+        return during_load_fail()
     if 'hex' in case:
         return impl_hex(case['hex'])[1]
     return impl_decode(eval(case['seq']))[1]
